@@ -193,7 +193,12 @@ def e2e_check(job):
     nu, eu, vu = ku._numint.nr_uks(mol, ku.grids, ku.xc, np.stack([D / 2, D / 2]))
     n += 1
     sc = 1 + np.abs(vr).max()
-    if abs(eu - er) > TOL * (1 + abs(er)) or np.abs(vu[0] - vr).max() > 1e-9 * sc or np.abs(vu[1] - vr).max() > 1e-9 * sc:
+    # scale of the energy comparison: E_xc is a quadrature sum of point contributions of the size of the local exchange energy;
+    # a random model makes the NET energy small (-0.6 Ha of contributions summing |.| to ~8 Ha), and the round-off of the two paths
+    # (1.5e-12 relative per point, coherent in the core) is relative to the contributions, not to the net
+    from pyscf.dft import numint as pni
+    esc = 0.7386 * float(np.dot(kr.grids.weights, np.maximum(pni.eval_rho(mol, pni.eval_ao(mol, kr.grids.coords), D + Da + Db), 0) ** (4.0 / 3)))
+    if abs(eu - er) > TOL * (1 + abs(er) + esc) or np.abs(vu[0] - vr).max() > 1e-9 * sc or np.abs(vu[1] - vr).max() > 1e-9 * sc:
         viol.append({"site": "e2e:rks-vs-uks-halves:" + tag, "detail": {"cfg": cfg, "dE": float(eu - er), "dv_a": float(np.abs(vu[0] - vr).max()),
                                                                          "dv_b": float(np.abs(vu[1] - vr).max())}})
     if abs(nu[0] + nu[1] - nr) > 1e-10 * (1 + abs(nr)):
@@ -206,7 +211,7 @@ def e2e_check(job):
         nu2, eu2, vu2 = ks2._numint.nr_uks(mol, kr.grids, kr.xc, np.stack([D / 2, D / 2]))
         nr2, er2, vr2 = kr._numint.nr_rks(mol, kr.grids, kr.xc, D)
         n += 1
-        if abs(eu2 - er) > TOL * (1 + abs(er)) or np.abs(vu2[0] - vr).max() > 1e-9 * sc or abs(er2 - er) > TOL * (1 + abs(er)) or np.abs(vr2 - vr).max() > 1e-9 * sc:
+        if abs(eu2 - er) > TOL * (1 + abs(er) + esc) or np.abs(vu2[0] - vr).max() > 1e-9 * sc or abs(er2 - er) > TOL * (1 + abs(er) + esc) or np.abs(vr2 - vr).max() > 1e-9 * sc:
             viol.append({"site": "e2e:rks-then-uks-on-shared-integrator:" + tag, "detail": {"cfg": cfg, "shared": bool(shared), "dE_uks": float(eu2 - er), "dE_rks_again": float(er2 - er)}})
     except NotImplementedError:
         pass
@@ -215,14 +220,14 @@ def e2e_check(job):
     n2, e2, v2 = ku._numint.nr_uks(mol, ku.grids, ku.xc, np.stack([Db, Da]))
     n += 1
     sc = 1 + np.abs(v1).max()
-    if abs(e1 - e2) > TOL * (1 + abs(e1)) or np.abs(v1[0] - v2[1]).max() > 1e-9 * sc or np.abs(v1[1] - v2[0]).max() > 1e-9 * sc:
+    if abs(e1 - e2) > TOL * (1 + abs(e1) + esc) or np.abs(v1[0] - v2[1]).max() > 1e-9 * sc or np.abs(v1[1] - v2[0]).max() > 1e-9 * sc:
         viol.append({"site": "e2e:spin-swap:" + tag, "detail": {"cfg": cfg, "dE": float(e1 - e2), "dv": float(np.abs(v1[0] - v2[1]).max())}})
     # ---- separable (exchange-like) models: E[na, nb] = (E[2 na] + E[2 nb]) / 2
     if cfg["mode"] == "SEP" and cfg["mix"] in ("pure", "xmix"):
         ea = kr._numint.nr_rks(mol, kr.grids, kr.xc, 2 * Da)[1]
         eb = kr._numint.nr_rks(mol, kr.grids, kr.xc, 2 * Db)[1]
         n += 1
-        if abs(e1 - 0.5 * (ea + eb)) > TOL * (1 + abs(e1)):
+        if abs(e1 - 0.5 * (ea + eb)) > TOL * (1 + abs(e1) + esc):
             viol.append({"site": "e2e:separability:" + tag, "detail": {"cfg": cfg, "E_uks": float(e1), "half_sum": float(0.5 * (ea + eb))}})
     return {"viol": viol, "n": n}
 
